@@ -10,6 +10,10 @@ import (
 	"path/filepath"
 	"strconv"
 	"strings"
+
+	"golang.org/x/tools/go/ssa"
+
+	"verif/gosym/engine"
 )
 
 func init() {
@@ -243,6 +247,15 @@ func (c *Ctx) frontJobs(maxN int) []Job {
 			RequiredCovers: []string{"end"},
 		})
 	}
+	jobs = append(jobs, Job{
+		Name:           "undefined regular definition",
+		Target:         repoTarget("internal/lexer/items", "items", "items/c18.go", "items/c14.go"),
+		Run:            SymRun{Harness: "VerifC14UndefRegDef", LoopBound: 400, ConcreteFmt: true, ForkFuncs: []string{"VerifC14UndefRegDef"}},
+		AllowPanic:     []string{"@lexpart.go"},
+		TimeoutS:       600,
+		Bounds:         "lexer item-set construction (items.GetItemSets, the only place where references to regular definitions are resolved) on a seven-definition lexical part built with the real ast constructors; WHICH of its 8 references is renamed to an undefined name is symbolic (none: the construction must return)",
+		RequiredCovers: []string{"well-formed lexical part accepted"},
+	})
 	return jobs
 }
 
@@ -256,6 +269,81 @@ func checkC15(c *Ctx) {
 	c.RunJobs(filterJobs(jobs), 4)
 }
 
+// redirectTo replaces a function of the code under test by a function of the harness package
+// with the same parameter list.
+func redirectTo(pkgPath, name string) engine.Intrinsic {
+	return func(e *engine.Engine, st *engine.St, args []engine.Value, call *ssa.CallCommon) (engine.Value, bool) {
+		fn := e.FindFunc(pkgPath, name)
+		if fn == nil {
+			panic("harness function " + name + " not found")
+		}
+		return engine.Pack(e.CallFunc(st, fn, args, nil)), true
+	}
+}
+
+// mainPipelineJobs: the real main() on ill-formed grammar files with symbolic flags.
+func mainPipelineJobs(c *Ctx) []Job {
+	tm := &Target{ModDir: "/repo", PkgDir: "/repo", PkgPath: RepoMod, PkgName: "main", Harness: []string{VerifRoot + "/harness/main/c04.go", VerifRoot + "/harness/main/c14.go"}}
+	exit := func(e *engine.Engine, st *engine.St, args []engine.Value, call *ssa.CallCommon) (engine.Value, bool) {
+		ill := e.ReadGlobal(st, RepoMod, "verifIllFormed").(*engine.T)
+		code := args[0].(*engine.T)
+		e.AssertAt(st, e.S.Not(e.S.And(ill, e.S.Eq(code, e.S.Const(0, code.W)))), "gocc does not exit with status zero on an ill-formed grammar")
+		e.CoverAt(st, "exit")
+		e.Kill(st)
+		return nil, true
+	}
+	none := func(e *engine.Engine, st *engine.St, args []engine.Value, call *ssa.CallCommon) (engine.Value, bool) {
+		return nil, true
+	}
+	intr := map[string]engine.Intrinsic{
+		"os.Exit":                                  exit,
+		RepoMod + "/internal/config.New":           redirectTo(RepoMod, "verifConfigNew"),
+		RepoMod + "/internal/lexer/gen/golang.Gen": none,
+		RepoMod + "/internal/token/gen.Gen":        none,
+		RepoMod + "/internal/util/gen.Gen":         none,
+		RepoMod + "/internal/parser/gen.Gen":       redirectTo(RepoMod, "verifGenParser"),
+		RepoMod + "/internal/io.WriteFileString":   none,
+		RepoMod + "/internal/io.WriteFile":         none,
+		"flag.PrintDefaults":                       none,
+	}
+	// the grammar files of harness/main/c14.go, in the same order, with the way each must end
+	const viaExit, viaUnknownProd, viaDupProd = "exit", "rejected by panic @lexpart.go:102", "rejected by panic @lexprodmap.go:67"
+	variants := []struct{ what, ends string }{
+		{"well-formed", "well-formed grammar: generation completed"},
+		{"undefined regular definition in a token", viaUnknownProd},
+		{"undefined regular definition in an ignored token", viaUnknownProd},
+		{"undefined regular definition inside a regular definition", viaUnknownProd},
+		{"undefined regular definition, lexical part only", viaUnknownProd},
+		{"undefined syntax production", viaExit},
+		{"token defined twice", viaDupProd},
+		{"regular definition defined twice", viaDupProd},
+		{"ignored token defined twice", viaDupProd},
+		{"alternative left empty", viaExit},
+		{"missing semicolon", viaExit},
+		{"stray colon", viaExit},
+		{"character outside the token alphabet", viaExit},
+	}
+	var jobs []Job
+	for i, v := range variants {
+		jobs = append(jobs, Job{
+			Name:   fmt.Sprintf("main pipeline %d: %s", i, v.what),
+			Target: tm,
+			Run: SymRun{Harness: "VerifC14Main", Params: map[string]int{"ONLY": i}, LoopBound: 4000, ConcreteFmt: true, ForkFuncs: []string{"VerifC14Main", "main"}, Intrinsics: intr,
+				InitPkgs: func(p string) bool {
+					return p == "sort" || p == "unicode" || p == "unicode/utf8" || p == "strconv" || (strings.HasPrefix(p, RepoMod) && !strings.Contains(p, "/gen"))
+				}},
+			AllowPanic:          []string{"panic @"},
+			TimeoutS:            600,
+			ConfirmOnlyFailures: true,
+			PanicIsCover:        true,
+			MaxCoverReplays:     -1,
+			Bounds:              "the real main() (front-end scanner, parser, AST construction, symbol tables, lexer item sets, FIRST sets and LR(1) item sets executed as shipped; the four code generators and the -v dump writers stubbed) on the grammar file '" + v.what + "' with all seven boolean flags (-a -v -zip -u -no_lexer -debug_lexer -debug_parser, seen through the config.Config interface) symbolic; must end by: " + v.ends,
+			RequiredCovers:      []string{v.ends},
+		})
+	}
+	return jobs
+}
+
 func checkC14(c *Ctx) {
 	maxN := 4
 	if !c.Quick() {
@@ -263,9 +351,11 @@ func checkC14(c *Ctx) {
 	}
 	jobs := c.frontJobs(maxN)
 	jobs = append(jobs, consistentJobs()...)
+	jobs = append(jobs, mainPipelineJobs(c)...)
 	c.BoundsText = append(c.BoundsText, "semantic level (kernel): ast.consistent on a two-production grammar with an undefined production and/or an undefined token of SYMBOLIC spelling and with every map iteration order symbolic: an undefined syntax production (any capital first letter) or an alternative left empty always yields an error; ast.NewLexPart on two definitions of the same kind with symbolic names yields a lexical part iff the names differ")
-	c.BoundsText = append(c.BoundsText, fmt.Sprintf("token level: every sequence of 0..%d front-end tokens that is NOT a sentence of spec/gocc2.ebnf makes the real front-end Parser.Parse (checked-in tables, Error()/recovery executed as shipped) return a non-nil error; main() exits with status 1 whenever Parse returns an error (read from main.go)", maxN),
-		"outside the claim: undefined regular definitions; that main() turns the error into a non-zero exit status (read from main.go, not encoded); malformed lexemes at scanner level (Scanner.ErrorCount is not consulted by main)")
+	c.BoundsText = append(c.BoundsText, fmt.Sprintf("token level: every sequence of 0..%d front-end tokens that is NOT a sentence of spec/gocc2.ebnf makes the real front-end Parser.Parse (checked-in tables, Error()/recovery executed as shipped) return a non-nil error", maxN),
+		"undefined regular definitions: (a) items.GetItemSets on a seven-definition lexical part built with the real ast constructors, WHICH of its 8 references is renamed to an undefined name symbolic: the construction never returns normally; (b) pipeline: the real main() on 13 grammar files (1 well-formed, 12 ill-formed: undefined regular definition x4, undefined production, duplicate definition x3, empty alternative, missing semicolon, stray colon, foreign character) with all seven boolean flags symbolic: main returns normally (exit status 0) only for the well-formed file, every ill-formed one ends in os.Exit(non-zero) or an explicit panic (exit status 2) at the expected site, for every flag combination",
+		"outside the claim: grammar files other than the 13 of the pipeline harness at pipeline level (the token-level and kernel jobs quantify over the file instead); the flag parser itself (config.New is replaced by arbitrary booleans behind the config.Config interface; -o/-p/-h not modelled); the four code generators (stubbed: not reached on ill-formed input, which the jobs show); malformed lexemes that the scanner maps to a valid token (Scanner.ErrorCount is not consulted by main)")
 	c.RunJobs(filterJobs(jobs), 4)
 }
 
